@@ -90,6 +90,13 @@ class Operator(Token):
     def ast(self, tokens, stack, builder):
         super(Operator, self).ast(tokens, stack, builder)
         self.update_name(tokens, stack)
+        if self.name == '%':  # Postfix: it needs the end of an operand.
+            from .operand import Operand
+            t = tokens[-2] if len(tokens) > 1 else None
+            b = isinstance(t, Parenthesis) and t.has_end
+            b |= isinstance(t, Operator) and t.name == '%'
+            if not (b or isinstance(t, Operand)):
+                raise FormulaError()
         pred = self.pred
         while stack and isinstance(stack[-1], Operator):
             if pred > stack[-1].pred:
